@@ -303,7 +303,7 @@ def gen_type(rng, depth, structs_so_far, allow_var=True, prefer=None):
     if k == "opt":
         return ["opt", gen_type(rng, depth + 1, structs_so_far, allow_var, prefer)]
     if k == "arr":
-        size = weighted(rng, [(rng.randint(1, 4), 8), (rng.choice([31, 32, 33, 40, 64]), 0.6 if depth == 1 else 0)])
+        size = weighted(rng, [(rng.randint(1, 4), 8), (rng.choice([31, 32, 33, 40, 64]), 0.4 if depth == 1 else 0)])
         return ["arr", gen_type(rng, depth + 1, structs_so_far, allow_var if size < 10 else False, prefer), size]
     if prefer and rng.random() < 0.6:
         return ["struct", rng.choice(prefer)]      # the same nested struct type again (accel: Vec3, gyro: Vec3)
@@ -334,6 +334,9 @@ def gen_schema(rng):
         if not fixed_only and rng.random() < 0.45:
             fields[-1]["type"] = weighted(rng, [(["str"], 3), (["dyn", ["u", 8]], 1), (["dyn", ["str"]], 1),
                                                  (["opt", ["str"]], 1), (["arr", ["str"], 2], 1)])
+        if rng.random() < 0.07:
+            # a long fixed array of integers in LAST position (nothing after it re-checks the end of the input)
+            fields[-1]["type"] = ["arr", [rng.choice("ui"), rng.choice([2, 8, 12, 16, 33])], rng.choice([32, 40, 64])]
         if rng.random() < 0.25 and len(fields) > 1:
             # ids not in declaration order: the Python codec (and the reference codec here) walk the fields as declared
             for f, i_ in zip(fields, rng.sample(range(0, 2 * len(fields) + 1), len(fields))):
